@@ -174,12 +174,12 @@ WaitsFor(a, b) ==
   \/ ScanBlockedOn(a, b)
   \/ st[a] = "waiting" /\ b \in Outstanding(a)
 
-(* the relation a cycle report follows: real wait-for edges, and - for a rule that already completed in this build - *)
-(* its discovered dependencies that are still being brought up to date (the build cannot finish before they are)      *)
+(* the relation a cycle report follows: real wait-for edges; a rule that already completed in this build waits for    *)
+(* nothing, but the build cannot finish before its recorded (discovered) dependencies are brought up to date, so a     *)
+(* report may lead from the requested key through complete rules, along their recorded dependencies, into the cycle    *)
 CycleEdge(a, b) ==
   \/ WaitsFor(a, b)
-  \/ /\ Done(a) /\ a \in ran /\ ~Done(b)
-     /\ \E i \in 1..Len(mem[a].deps) : mem[a].deps[i].k = b /\ mem[a].deps[i].disc
+  \/ Done(a) /\ \E i \in 1..Len(mem[a].deps) : mem[a].deps[i].k = b
 
 CanStep ==
   \/ \E k \in Keys : Wanted(k) /\ st[k] \in {"idle", "needsrun", "uptodate"}
@@ -474,6 +474,7 @@ CycleDetected(list) ==
   /\ Len(list) >= 2 /\ list[1] = target
   /\ \A i \in 1..(Len(list) - 1) : CycleEdge(list[i], list[i+1])
   /\ \E i \in 1..(Len(list) - 1) : list[i] = list[Len(list)]
+  /\ ~Done(list[Len(list)])                \* the cycle proper is among rules that are really waiting
   /\ cyc' = TRUE
   /\ draining' = TRUE
   /\ last' = NoLast
